@@ -44,7 +44,6 @@ def main(inp, outp):
 
     # ---- histories of settings on ONE ephemeris object (EphemSettings.tla) -----------------------------------------------
     for bidx, beh in enumerate(job.get("settings", [])):
-        doors_used = []
         n, deg, h = 16, beh["degree"], 30.0
         coef = [[((3 * k + 7 * j) % 11 - 5) / (10.0 ** j) for j in range(deg + 1)] for k in range(6)]
 
@@ -84,15 +83,13 @@ def main(inp, outp):
                 q, m, k = act[1], act[2], act[3]
                 t = h * q / 2.0
                 d = T0 + timedelta(seconds=t)
-                # the doors to an interpolated point: interpolate(), its alias propagate(), an iteration over an explicit date and
-                # the sub-ephemeris built from one - used in turn
-                door = (bidx + len(doors_used)) % 4
-                doors_used.append(door)
-                if door == 0:
+                # the door is part of the behaviour (EphemSettings.tla Doors)
+                door = act[6] if len(act) > 6 else "interpolate"
+                if door == "interpolate":
                     gsv = eph.interpolate(d)
-                elif door == 1:
+                elif door == "propagate":
                     gsv = eph.propagate(d)
-                elif door == 2:
+                elif door == "iter-dates":
                     gsv = next(iter(eph.iter(dates=[d])))
                 else:
                     gsv = list(eph.ephem(dates=[d]))[0]
